@@ -74,6 +74,21 @@ impl Monitor for C09 {
                 }
             }
         }
+        // Integer operand pairs whose exact result lands within a few hundred of +-2^63 (fits / does not
+        // fit), +-2^53 and smaller boundaries
+        let nb = ctx.tier.pick(40_000u64, 800_000);
+        for i in 0..nb {
+            if ctx.mine() {
+                let mut rng = ctx.rng("boundary", i);
+                let (a, op, b) = boundary_seeking(&mut rng);
+                let (s, ph) = match rng.below(4) {
+                    0 => (format!("@{}{}", op, i64_expr(b)), Val::NI(a)),
+                    1 => (format!("{}{}@", i64_expr(a), op), Val::NI(b)),
+                    _ => (format!("{}{}{}", i64_expr(a), op, i64_expr(b)), Val::NI(0)),
+                };
+                ctx.check(&Case::new(ev, "boundary", &s, ph), &|c, st| self.judge(c, st));
+            }
+        }
         // rounding functions on a dense set of fractions
         let n0 = ctx.tier.pick(20_000u64, 300_000);
         for i in 0..n0 {
@@ -142,7 +157,7 @@ impl Monitor for C09 {
         to_verdict("C09", case.ev, &shape_of(&p.ast), rv, false)
     }
     fn rule(&self) -> &'static str {
-        "depth-1: + - * / % ^ over every ordered pair of the typed pool (Integer: i64 boundary pool; Float: f64 boundary pool, integral doubles such as 5.0, 2^53, +-2^63, 1e19, and NaN/inf/-0 through @), unary minus, abs, sgn, n!, floor/ceil/round/trunc (functions and brackets), superscripts, operands as literals and through @; a dense sweep of the rounding functions over fractions at several magnitudes; random typed trees of depth<=5; oracle = typed reference doing Integer steps in i128 and Float steps as IEEE doubles, expressed as the set of acceptable (variant, value) results so that canonicalising implementations are accepted where the statement leaves the variant free; a panic counts as a violation; outcomes are also compared between the overflow-checked and release builds; non-trivial = the reference gives a verdict; distinct = distinct (expression, placeholder)"
+        "Integer + - * on operand pairs constructed so that the exact result lands within 1500 of +-2^63, +-2^53, +-2^62, 2^31, 2^32 or 0; depth-1: + - * / % ^ over every ordered pair of the typed pool (Integer: i64 boundary pool; Float: f64 boundary pool, integral doubles such as 5.0, 2^53, +-2^63, 1e19, and NaN/inf/-0 through @), unary minus, abs, sgn, n!, floor/ceil/round/trunc (functions and brackets), superscripts, operands as literals and through @; a dense sweep of the rounding functions over fractions at several magnitudes; random typed trees of depth<=5; oracle = typed reference doing Integer steps in i128 and Float steps as IEEE doubles, expressed as the set of acceptable (variant, value) results so that canonicalising implementations are accepted where the statement leaves the variant free; a panic counts as a violation; outcomes are also compared between the overflow-checked and release builds; non-trivial = the reference gives a verdict; distinct = distinct (expression, placeholder)"
     }
     fn assumptions(&self) -> Vec<&'static str> {
         vec!["Integer^negative Integer, Integer % 0 and i64::MIN % -1 are unspecified for the value", "results of operations with a Float operand are compared numerically, variant free"]
